@@ -3,6 +3,7 @@
 -/
 import TemporalModel.Model.Partial
 import TemporalModel.Lemmas.DateLemmas
+import TemporalModel.Lemmas.SafeLemmas
 namespace TemporalModel
 open Greg
 
@@ -156,6 +157,75 @@ theorem C18_canonical_month_day (m d : Int) (ov : Overflow) (r : IsoDate)
       · cases h
     · cases h
 
+/-- The first of a month, from the field record year-month arithmetic builds. -/
+theorem fromPartial_first (y m : Int) (ov : Overflow) (hm : 1 ≤ m ∧ m ≤ 12) (hr : InRange ⟨y, m, 1⟩) :
+    dateFromPartial ⟨some y, some m, some ⟨m.toNat, false⟩, some 1, false, none⟩ ov = .ok ⟨y, m, 1⟩ := by
+  have hnat : ((m.toNat : Nat) : Int) = m := by omega
+  have hdim := C01_days_in_month y m hm.1 hm.2
+  have hb := dim_bounds y m
+  have hnew := newWithOverflow_of_inRange ⟨y, m, 1⟩ ov hr
+  unfold dateFromPartial resolvedFieldsIso eraYearIso resolveIsoMonth resolveIsoMonthCode resolveDay
+    MonthCode.validateIso constrainIsoDay
+  have hv : (1 ≤ m.toNat ∧ m.toNat ≤ 12) := by omega
+  have h11 : (1 : Int) ≤ 1 ∧ 1 ≤ dim y m := by omega
+  cases ov with
+  | constrain =>
+    simp only [hnat, ne_eq, not_true_eq_false, if_false, Out.bind_ok, Bool.false_eq_true, hdim, Out.pure_eq_ok,
+      Bool.not_false, hv, and_self, if_true, reduceCtorEq, decide_false, clamp_one _ (by omega : 1 ≤ dim y m)]
+    exact hnew
+  | reject =>
+    simp only [hnat, ne_eq, not_true_eq_false, if_false, Out.bind_ok, Bool.false_eq_true, hdim, Out.pure_eq_ok,
+      Bool.not_false, hv, and_self, if_true, reduceCtorEq, decide_false, h11]
+    exact hnew
+
+/-- A year-month from the fields of a date: the date's year and month, day 1. -/
+theorem yearMonthFromPartial_of_date (a : IsoDate) (ov : Overflow) (hm : 1 ≤ a.month ∧ a.month ≤ 12) :
+    yearMonthFromPartial ⟨some a.year, none, some ⟨a.month.toNat, false⟩, some a.day, false, none⟩ ov =
+      yearMonthNew a.year a.month (some 1) ov := by
+  have hnat : ((a.month.toNat : Nat) : Int) = a.month := by omega
+  have hdim := C01_days_in_month a.year a.month hm.1 hm.2
+  have hb := dim_bounds a.year a.month
+  have hv : (1 ≤ a.month.toNat ∧ a.month.toNat ≤ 12) := by omega
+  unfold yearMonthFromPartial resolvedFieldsIso eraYearIso resolveIsoMonth resolveIsoMonthCode resolveDay
+    MonthCode.validateIso constrainIsoDay
+  have h11 : (1 : Int) ≤ 1 ∧ 1 ≤ dim a.year a.month := by omega
+  cases ov with
+  | constrain =>
+    simp only [Out.bind_ok, Bool.not_false, hv, and_self, if_true, decide_true, hnat, hdim, Out.pure_eq_ok,
+      Bool.false_eq_true, if_false, clamp_one _ (by omega : 1 ≤ dim a.year a.month)]
+  | reject =>
+    simp only [Out.bind_ok, Bool.not_false, hv, and_self, if_true, decide_true, hnat, hdim, Out.pure_eq_ok,
+      Bool.false_eq_true, if_false, reduceCtorEq, h11]
+
+/-- **C18 (year-month arithmetic counts from the first of the month).** For a duration of whole years and months,
+`add` is plain-date addition from day 1 of the receiver's month - whatever hidden reference day the receiver carries -
+followed by taking the year and month of the result (day 1 again): the hidden part never influences the result. -/
+theorem C18_add_from_first_of_month (r : IsoDate) (du : Dur) (ov : Overflow) (bal : Dur)
+    (hm : 1 ≤ r.month ∧ r.month ≤ 12) (hr : InRange ⟨r.year, r.month, 1⟩)
+    (hb : timeFromNormalized du.timeNs .day = .ok bal)
+    (h0 : du.weeks = 0 ∧ F64.ofInt (du.days + bal.days) = 0) :
+    yearMonthAdd r du ov = (do
+      let added ← plainDateAdd ⟨r.year, r.month, 1⟩ du ov
+      yearMonthNew added.year added.month (some 1) ov) := by
+  unfold yearMonthAdd
+  simp only [hb, Out.bind_ok]
+  rw [if_neg (by rcases h0 with ⟨a, b⟩; simp [a, b])]
+  unfold partialOfYearMonth
+  simp only [Out.pure_eq_ok, Out.bind_ok, fromPartial_first r.year r.month ov hm hr]
+  cases hadd : plainDateAdd ⟨r.year, r.month, 1⟩ du ov with
+  | err k => rfl
+  | panic => rfl
+  | ok added =>
+    simp only [Out.bind_ok]
+    have hmo := plainDateAdd_monthOk hadd
+    have hma : 1 ≤ added.month ∧ added.month ≤ 12 := hmo
+    have hmc : monthToMonthCode added.month = .ok ⟨added.month.toNat, false⟩ := by
+      unfold monthToMonthCode; rw [if_pos (by omega)]
+    unfold PartialDate.withFallback
+    simp only [hmc, Out.bind_ok, Out.pure_eq_ok, Option.isSome_none, Bool.false_eq_true, or_self, if_false,
+      Option.getD_none, if_true]
+    exact yearMonthFromPartial_of_date added ov hma
+
 /-- Year-month arithmetic refuses weeks and days (also whole days carried by time units). -/
 theorem C18_rejects_weeks_days (r : IsoDate) (du : Dur) (ov : Overflow) (bal : Dur)
     (hb : timeFromNormalized du.timeNs .day = .ok bal)
@@ -218,3 +288,4 @@ end TemporalModel
 #print axioms TemporalModel.C18_rejects_weeks_days
 #print axioms TemporalModel.C18_limits
 #print axioms TemporalModel.C18_month_day_feb29
+#print axioms TemporalModel.C18_add_from_first_of_month
